@@ -26,7 +26,7 @@ type c04write struct {
 	numeric bool
 }
 
-var c04Writes = []c04write{{"Memset", false}, {"Zero", false}, {"SetAtSweep", false}, {"Copy", false}, {"CopyTo", false}, {"TransposeInPlace", false},
+var c04Writes = []c04write{{"Memset", false}, {"Zero", false}, {"SetAtSweep", false}, {"Copy", false}, {"CopyTwin", false}, {"AddUnsafeTwin", true}, {"CopyTo", false}, {"TransposeInPlace", false},
 	{"NegUnsafe", true}, {"SquareUnsafe", true}, {"AddUnsafeTT", true}, {"AddUnsafeTS", true}, {"AddReuse", true}, {"AddIncr", true}, {"MulScalarReuse", true}}
 
 // mkContig builds a fresh contiguous tensor with the given logical values.
@@ -89,6 +89,28 @@ func c04DoWrite(b *atlas.Built, w string) (want []interface{}, o Outcome, permut
 		src := mkContig(d, shape, other)
 		copy(want, other)
 		o = call(func() error { return tensor.Copy(b.T, src) })
+	case "CopyTwin", "AddUnsafeTwin":
+		// the source is the SAME kind of view (same slicing / transposition) over a second root: equal shapes, strides and
+		// window lengths on both sides
+		if b.Twin == nil {
+			return nil, o, nil
+		}
+		tw := b.Twin()
+		if tw == nil || !ref.EqInts(tw.View.Shape, shape) {
+			return nil, o, nil
+		}
+		for i, c := range tw.View.Cell {
+			ref.SliceSet(tw.Root, c, other[i])
+		}
+		if w == "CopyTwin" {
+			copy(want, other)
+			o = call(func() error { return tensor.Copy(b.T, tw.T) })
+		} else {
+			for i := range want {
+				want[i] = arithOK("Add", old[i], other[i])
+			}
+			o = call(func() error { _, e := tensor.Add(b.T, tw.T, tensor.UseUnsafe()); return e })
+		}
 	case "CopyTo":
 		src := mkContig(d, shape, other)
 		copy(want, other)
@@ -311,6 +333,7 @@ func runC04(r *core.Run) {
 						tensor.VerifResetPools()
 						b := mk() // fresh state for every execution of the case
 						d.FillCodes(b.Root, 1)
+						b.Twin = mk
 						return c04CheckWrite(r, b, wn)
 					})
 				}
